@@ -251,3 +251,26 @@ Proof.
   destruct Hb as [Hw He]. split; [exact Hw|]. split; [apply html_skeleton_wf; exact Hw|].
   unfold chardata. rewrite He. reflexivity.
 Qed.
+
+(* ---- one back-end object used several times: what an operation returns does not depend on what
+   the object did before (its attributes are assigned by write_to_stream before they are read) ---- *)
+Lemma step_result_stateless enc T b php encoding st st0 op :
+  snd (step enc T b php encoding st op) = snd (step enc T b php encoding st0 op).
+Proof. destruct op; reflexivity. Qed.
+
+Lemma history_independent_holds enc T b php encoding ops : forall st st0,
+  run_history enc T b php encoding st ops = map (fun op => snd (step enc T b php encoding st0 op)) ops.
+Proof.
+  induction ops as [|op r IH]; intros st st0; [reflexivity|].
+  cbn [run_history map]. destruct (step enc T b php encoding st op) as [st' x] eqn:E.
+  f_equal; [|apply IH].
+  change x with (snd (st', x)). rewrite <- E. apply step_result_stateless.
+Qed.
+
+Lemma history_document_alone enc T b php encoding st ops k pre es :
+  nth_error ops k = Some (OpDoc pre es) ->
+  nth_error (run_history enc T b php encoding st ops) k = Some (write_to_stream enc T b php encoding pre es).
+Proof.
+  intros H. rewrite (history_independent_holds enc T b php encoding ops st st).
+  rewrite nth_error_map, H. reflexivity.
+Qed.
